@@ -264,3 +264,42 @@ def r18_9(ctx):
                       expected="self.%s is None after untranscribe()/main_untranscribe()" % a, found="still %s (assigned in %s: %s)" % (short(v) if v is not None else None, m.qualname, ast.unparse(st)[:80]), fi=P.resolve(cname, "clean") or m)
     if total < 5:
         raise AnalysisError("R18.9: only %d Opti-bound attributes found (expected >= 5)" % total)
+
+
+@rule("R18.10", min_instances=2, desc="save releases the transcription state whatever the history: simulated Ocp.save with the transcribed flag set and with the flag withdrawn by a later declaration (the method objects still hold the Opti then) runs the phase-0/1/2 un-transcription of every stage before pickle.dump")
+def r18_10(ctx):
+    from ..sim import Sim, fresh_obj
+    from ..layout import Sym, LayoutUnknown
+    P = ctx.prog
+    f = P.own_method("Ocp", "save")
+    # an eager design (the invalidation itself releases the state) would make the flag a faithful witness: accepted
+    inval = P.own_method("Stage", "_set_transcribed")
+    eager = any(q.split(".")[-1] in ("main_untranscribe", "_untranscribe_recurse") for q in P.reachable([inval])[0])
+    for flag in (True, False):
+        log = []
+        hooks = {"._untranscribe_recurse": lambda s, r, a, k, n: log.append(("recurse", freeze_kw(a, k))),
+                 "._placeholders_untranscribe_recurse": lambda s, r, a, k, n: log.append(("placeholders", freeze_kw(a, k))),
+                 "pickle.dump": lambda s, r, a, k, n: log.append(("dump", None)), ".dump": lambda s, r, a, k, n: log.append(("dump", None)), "dump": lambda s, r, a, k, n: log.append(("dump", None)),
+                 "open": lambda s, r, a, k, n: Sym("file"), "._set_transcribed": lambda s, r, a, k, n: None, ".clear": lambda s, r, a, k, n: None}
+        me = fresh_obj("self", is_transcribed=flag, _is_transcribed=flag, _var_is_transcribed=flag)
+        me.attrs["_original"] = me
+        me.attrs["master"] = me
+        sim = Sim(P, hooks=hooks)
+        sim.self_class = "Ocp"
+        try:
+            sim.call(f, [me, "file.rockit"], {})
+        except LayoutUnknown as e:
+            raise AnalysisError("Ocp.save could not be simulated: %s" % e)
+        if ("dump", None) not in log:
+            raise AnalysisError("Ocp.save: no pickle.dump reached in the simulation")
+        before = log[:log.index(("dump", None))]
+        phases = sorted(v for k, v in before if k == "recurse")
+        ok = phases == ["0", "1", "2"] or (not flag and eager)
+        ctx.check(ok, "Ocp.save %s: every stage is un-transcribed (phases 0, 1, 2) before the dump" % ("of a transcribed OCP" if flag else "after a declaration invalidated the transcription"),
+                  detail="the flag is withdrawn by any declaration after a solve but the method objects keep their Opti: save() raises 'Opti cannot be serialized' (history: solve, subject_to, save)",
+                  expected="_untranscribe_recurse(phase=0), (phase=1), (phase=2) before pickle.dump, whatever the flag says", found="before the dump: %s" % (["%s(%s)" % kv for kv in before] or "nothing"), fi=P.own_method("Ocp", "_untranscribe"))
+
+
+def freeze_kw(a, k):
+    vals = list(a) + [v for _, v in sorted(k.items())]
+    return ",".join(str(v) for v in vals)
